@@ -62,3 +62,42 @@ package graph
 //@ spec acyclicByTopo() bool =
 //@   (forall m *Node :: topo(m) >= 0)
 //@   && (forall m *Node, k int :: m != nil && 0 <= k && k < len(m.Out) && m.Out[k].To != m ==> topo(m.Out[k].To) < topo(m))
+
+// ---------------------------------------------------------------------------
+// edge lists
+
+// Remove works in place: only elements of the list's own backing array change, the list keeps its array and
+// never grows. (Which occurrences are removed is not part of this contract.)
+//@ func EdgeList.Remove
+//@   modifies Elems[*Edge], alloc
+//@   ensures arr(*list) == old(arr(*list)) && off(*list) == old(off(*list)) && cap(*list) == old(cap(*list)) && len(*list) <= old(len(*list))
+//@   ensures forall t []*Edge, j int :: arr(t) != old(arr(*list)) ==> t[j] == old(t[j])
+//@   ensures forall a int :: old(allocatedArrId(a)) <==> allocatedArrId(a)
+//@   loop range(*list)#1 index i
+//@     invariant arr(*list) == old(arr(*list)) && off(*list) == old(off(*list)) && cap(*list) == old(cap(*list)) && len(*list) <= old(len(*list))
+//@     invariant forall t []*Edge, j int :: arr(t) != old(arr(*list)) ==> t[j] == old(t[j])
+//@     invariant forall a int :: old(allocatedArrId(a)) <==> allocatedArrId(a)
+
+// Add appends: in place when there is room, otherwise the list moves to a fresh array; other arrays are untouched
+//@ func EdgeList.Add
+//@   modifies Elems[*Edge], alloc
+//@   ensures len(*list) == old(len(*list)) + 1 && (*list)[old(len(*list))] == e
+//@   ensures forall j int :: 0 <= j && j < old(len(*list)) ==> (*list)[j] == old((*list)[j])
+//@   ensures arr(*list) == old(arr(*list)) || !old(allocatedArrId(now(arr(*list))))
+//@   ensures allocatedArr(*list)
+//@   ensures forall t []*Edge, j int :: arr(t) != old(arr(*list)) && old(allocatedArrId(arr(t))) ==> t[j] == old(t[j])
+//@   ensures forall a int :: old(allocatedArrId(a)) ==> allocatedArrId(a)
+
+// Reverse swaps the ends and toggles the flag of e; no other edge changes; only the four adjacency lists of
+// the two end nodes (and fresh arrays) are written.
+//@ func Edge.Reverse
+//@   requires e != nil && e.From != nil && e.To != nil
+//@   modifies Edge.From, Edge.To, Edge.IsReversed, Node.In, Node.Out, Elems[*Edge], alloc
+//@   ensures[swap] e.From == old(e.To) && e.To == old(e.From) && e.IsReversed == !old(e.IsReversed)
+//@   ensures[others] forall f *Edge :: f != e ==> f.From == old(f.From) && f.To == old(f.To) && f.IsReversed == old(f.IsReversed)
+//@   ensures[lists] forall n *Node :: n != old(e.From) && n != old(e.To) ==> n.In == old(n.In) && n.Out == old(n.Out)
+//@   ensures[frame] forall t []*Edge, j int :: old(allocatedArrId(arr(t))) && arr(t) != old(arr(e.From.Out)) && arr(t) != old(arr(e.To.In))
+//@       && arr(t) != old(arr(e.From.In)) && arr(t) != old(arr(e.To.Out)) ==> t[j] == old(t[j])
+//@   ensures[alloc] forall a int :: old(allocatedArrId(a)) ==> allocatedArrId(a)
+//@   ensures[arrays] forall n *Node :: (arr(n.In) == old(arr(n.In)) || !old(allocatedArrId(now(arr(n.In)))))
+//@       && (arr(n.Out) == old(arr(n.Out)) || !old(allocatedArrId(now(arr(n.Out)))))
